@@ -302,7 +302,7 @@ class Check:
             json.dump(ev, f, indent=1)
         if os.environ.get('VERIF_DEBUG'):
             for o in sorted(obls, key=lambda o: -o.seconds)[:12]:
-                print(f'  slow: {o.seconds:7.2f}s {o.verdict:8s} {o.name}')
+                print(f'  slow: {o.seconds:7.2f}s {str(o.verdict):8s} {o.name}')
         for l in lines:
             print(l)
         for m in incon_msgs:
